@@ -2,6 +2,7 @@
    hypotheses are satisfiable (non-vacuity). *)
 From ASV Require Import Loc.
 From ASV.C04 Require Import Model Proofs.
+From Coq Require Import Sorting.Permutation.
 
 (* two locations overlap iff they share a base *)
 Theorem C04_overlap : forall a b, Forall wf_part a -> Forall wf_part b ->
@@ -313,6 +314,111 @@ Theorem C04_spec_extend_sound : forall a d N circ out, check_extend a d N circ o
 Proof. exact check_extend_sound. Qed.
 Print Assumptions C04_spec_extend_sound.
 
+
+(* ---- connect_locations without a wrap point: ANY number of arguments, multi-part arguments included ---- *)
+(* the result does not depend on the order of the argument list (value or exception alike) *)
+Theorem C04_connect_line_order : forall locs locs', Permutation locs locs' ->
+  connect_locations locs None = connect_locations locs' None.
+Proof. exact connect_line_order. Qed.
+Print Assumptions C04_connect_line_order.
+
+(* closed form: the hull of the arguments' own spans, with their common strand *)
+Theorem C04_connect_line_nary : forall locs, locs <> [] -> existsb bridges locs = false ->
+  connect_locations locs None = hull (map red1 locs).
+Proof. exact connect_line_nary. Qed.
+Print Assumptions C04_connect_line_nary.
+
+(* applying the operation twice: connecting a result again gives it back *)
+Theorem C04_connect_line_idem : forall locs r,
+  connect_locations locs None = Ok r -> connect_locations [r] None = Ok r.
+Proof. exact connect_line_idem. Qed.
+Print Assumptions C04_connect_line_idem.
+
+(* ---- connect_locations on a ring: the decision "is the way over the origin shorter" ---- *)
+(* _is_wrapping_shorter does not depend on the order of the locations (any number, any shape) ... *)
+Theorem C04_wrapping_shorter_order : forall locs locs' w, Permutation locs locs' ->
+  wrapping_shorter locs w = wrapping_shorter locs' w.
+Proof. exact wrapping_shorter_order. Qed.
+Print Assumptions C04_wrapping_shorter_order.
+
+(* ... because the sort key is (start, end): with the start alone (the same function, other key) two
+   locations tied on the lowest start make the answer depend on the argument order *)
+Theorem C04_wrapping_shorter_start_key_refuted : exists locs locs' w,
+  Permutation locs locs' /\
+  wrapping_shorter_by start_only_lt locs w = true /\ wrapping_shorter_by start_only_lt locs' w = false /\
+  wrapping_shorter locs w = true /\ wrapping_shorter locs' w = true.
+Proof. exact wrapping_shorter_start_key_refuted. Qed.
+Print Assumptions C04_wrapping_shorter_start_key_refuted.
+
+(* ANY number of arguments (multi-part ones included) on a ring, none running over the origin and no
+   gap from the lowest one exceeding half the record: the result is the linear hull of the arguments'
+   spans and does not depend on the argument order *)
+Theorem C04_connect_ring_nowrap_order_partial : forall locs locs' w, locs <> [] -> 0 < w ->
+  Permutation locs locs' -> existsb bridges locs = false -> wrapping_shorter (map red1 locs) w = false ->
+  connect_locations locs (Some w) = hull (map red1 locs) /\
+  connect_locations locs' (Some w) = connect_locations locs (Some w).
+Proof. exact connect_ring_nowrap_order. Qed.
+Print Assumptions C04_connect_ring_nowrap_order_partial.
+
+(* ---- histories: results do not depend on earlier calls or on in-place changes of earlier results ---- *)
+(* in every history (any heap to start with, any calls and in-place mutations before), the output at
+   a position holding a call is the value of that call alone *)
+Theorem C04_history_independent : forall ops h i fn p,
+  nth_error ops i = Some (HCall fn p) ->
+  nth_error (run_history h ops) i = Some (run_call fn p).
+Proof. exact history_independent. Qed.
+Print Assumptions C04_history_independent.
+
+(* the same call gives the same value at any two positions of any two histories *)
+Theorem C04_history_same_call : forall ops1 ops2 h1 h2 i j fn p,
+  nth_error ops1 i = Some (HCall fn p) -> nth_error ops2 j = Some (HCall fn p) ->
+  nth_error (run_history h1 ops1) i = nth_error (run_history h2 ops2) j.
+Proof. exact history_same_call. Qed.
+Print Assumptions C04_history_same_call.
+
+(* the executable entry point (function 300, what the extracted driver evaluates for the harness's
+   history cases) on an encoded history is run_history from the empty heap *)
+Theorem C04_history_run : forall ops, run_C04 300 (eList eHop ops) = eOuts (run_history [] ops).
+Proof. exact run_C04_history. Qed.
+Print Assumptions C04_history_run.
+
+Theorem C04_history_run_call : forall fn p, fn <> 300 -> run_C04 fn p = run_call fn p.
+Proof. exact run_C04_call. Qed.
+Print Assumptions C04_history_run_call.
+
+(* a call changes no existing object (it only allocates its arguments and its result) ... *)
+Theorem C04_history_call_frame : forall h fn p j, (j < length h)%nat ->
+  nth_error (fst (hstep h (HCall fn p))) j = nth_error h j.
+Proof. exact hstep_call_frame. Qed.
+Print Assumptions C04_history_call_frame.
+
+(* ... and an in-place mutator changes the addressed object only *)
+Theorem C04_history_mut_frame : forall h k a x j, j <> Z.to_nat a ->
+  nth_error (fst (hstep h (HMut k a x))) j = nth_error h j /\
+  length (fst (hstep h (HMut k a x))) = length h.
+Proof. exact hstep_mut_frame. Qed.
+Print Assumptions C04_history_mut_frame.
+
+(* the textual form of a location reads back to the same location: every position kind (exact, <, >),
+   every strand spelling, any number of parts, any operator without "{" *)
+Theorem C04_text : forall t, TextProofs.wf_tloc t -> Text.loc_from_string (Text.loc_str t) = Ok t.
+Proof. exact TextProofs.loc_codec. Qed.
+Print Assumptions C04_text.
+
+(* the textual form of a location reads back to the same location at every position of every
+   history (position kinds exact / < / >, every strand spelling, any operator without "{") *)
+Theorem C04_text_history : forall ops h i t, TextProofs.wf_tloc t ->
+  nth_error ops i = Some (HCall 14 (Text.eStr (Text.loc_str t))) ->
+  nth_error (run_history h ops) i = Some (0 :: Text.eTloc t).
+Proof. exact (text_reads_back_in_history TextProofs.wf_tloc TextProofs.loc_codec). Qed.
+Print Assumptions C04_text_history.
+
+(* specification 116 (the implementation's results for several orders of one argument list) *)
+Theorem C04_spec_order_independent_sound : forall outs, all_same outs = true ->
+  forall a b, In a outs -> In b outs -> a = b.
+Proof. exact all_same_sound. Qed.
+Print Assumptions C04_spec_order_independent_sound.
+
 (* ---- non-vacuity ---- *)
 Example C04_ex_ring_distance :
   let a := [mkPart 1 2 1] in let b := [mkPart 2 3 1; mkPart 0 1 1] in
@@ -380,3 +486,51 @@ Proof.
   split; [left; eexists; split; [reflexivity|cbn; lia]|].
   split; [right; exists 7, 2; split; [reflexivity|lia]|]. split; reflexivity.
 Qed.
+
+(* a history: parse the text of a reverse-strand location with ascending exons, let
+   location_bridges_origin(.., allow_reversing=True) reverse the returned object in place (mutator 4
+   on object 0: answer False, exons now 12, 6, 0), parse the same text again: the same location as
+   the first time.  The in-place change is visible (the hypothesis of the theorem is not vacuous). *)
+Example C04_ex_history_text :
+  let text := Text.eStr
+              [106; 111; 105; 110; 123; 91; 48; 58; 51; 93; 40; 45; 41; 44; 32; 91; 54; 58; 57; 93; 40;
+               45; 41; 44; 32; 91; 49; 50; 58; 49; 53; 93; 40; 45; 41; 125] in
+  let outs := run_history [] [HCall 14 text; HMut 4 0 0; HCall 14 text] in
+  nth_error outs 0 = nth_error outs 2 /\
+  nth_error outs 1 = Some [0; 3; 12; 15; -1; 6; 9; -1; 0; 3; -1] /\
+  run_call 19 [3; 0; 3; -1; 6; 9; -1; 12; 15; -1] = [0; 3; 12; 15; -1; 6; 9; -1; 0; 3; -1] /\
+  run_call 4 [3; 0; 3; -1; 6; 9; -1; 12; 15; -1] = [1].
+Proof. repeat split; vm_compute; reflexivity. Qed.
+
+Example C04_ex_history_connect :
+  run_C04 300 (eList eHop [HCall 6 [2; 1; 0; 5; 1; 1; 60; 70; 1; 1; 100]; HMut 2 2 (-1);
+                           HCall 6 [2; 1; 0; 5; 1; 1; 60; 70; 1; 1; 100]])
+  = eOuts [[0; 2; 60; 100; 1; 0; 5; 1]; [2; 60; 100; -1; 0; 5; -1]; [0; 2; 60; 100; 1; 0; 5; 1]].
+Proof. vm_compute. reflexivity. Qed.
+
+Example C04_ex_order_spec :
+  all_same [[0; 1; 0; 70; 1]; [0; 1; 0; 70; 1]] = true /\
+  all_same [[0; 2; 60; 100; 1; 0; 12; 1]; [0; 1; 0; 70; 1]] = false /\
+  build_location_from_others [[mkPart 0 3 1]; [mkPart 3 6 1]; [mkPart 8 9 1]] = Ok [mkPart 0 6 1; mkPart 8 9 1].
+Proof. repeat split; reflexivity. Qed.
+
+Example C04_ex_connect_line_order :
+  let a := [mkPart 5 10 (-1); mkPart 1 3 (-1)] in let b := [mkPart 20 30 (-1)] in let c := [mkPart 2 7 (-1)] in
+  Permutation [a; b; c] [c; a; b] /\
+  connect_locations [a; b; c] None = Ok [mkPart 1 30 (-1)] /\
+  connect_locations [c; a; b] None = Ok [mkPart 1 30 (-1)] /\
+  connect_locations [[mkPart 1 30 (-1)]] None = Ok [mkPart 1 30 (-1)].
+Proof.
+  split; [|repeat split; reflexivity].
+  apply Permutation_sym. apply (Permutation_cons_app [[mkPart 5 10 (-1); mkPart 1 3 (-1)]; [mkPart 20 30 (-1)]] []).
+  apply Permutation_refl.
+Qed.
+
+Example C04_ex_connect_ring_nowrap :
+  let locs := [[mkPart 0 5 1]; [mkPart 0 12 (-1)]; [mkPart 40 50 1; mkPart 30 35 1]] in
+  existsb bridges locs = true /\
+  let locs := [[mkPart 0 5 1]; [mkPart 0 12 (-1)]; [mkPart 30 35 1; mkPart 40 50 1]] in
+  existsb bridges locs = false /\ wrapping_shorter (map red1 locs) 100 = false /\
+  connect_locations locs (Some 100) = Ok [mkPart 0 50 2] /\
+  wrapping_shorter [[mkPart 0 5 1]; [mkPart 0 12 1]; [mkPart 60 70 1]] 100 = true.
+Proof. repeat split; reflexivity. Qed.
